@@ -261,6 +261,13 @@ class C01(Check):
         for tpl in G.TEMPLATES[-2:] + ([G.TEMPLATES[7]] if ctx.tier_counts == 'thorough' else []):
             for t in G.escaped_punct_sweep(tpl):
                 cases.append({'kind': 'escaped-punct', 'text': t, 'comments': True, 'validate': True, 'fetch': 'none'})
+        # selectors assembled from the selector grammar's own pieces (error branches of the selector parser)
+        NS = '@namespace p "u";@namespace "d";'
+        sel = list(G.selector_pairs()) if ctx.tier_counts == 'thorough' else rng.sample(list(G.selector_pairs()), 2500)
+        sel += [G.selector_soup(rng) for _ in range(ctx.n(2500, 40000))]
+        for i, t in enumerate(sel):
+            text = (NS if i % 2 else '') + 'z{y:x}' + t + '{b:c}w{v:u}'
+            cases.append({'kind': 'selector-pieces', 'text': text, 'comments': True, 'validate': bool(i % 3), 'fetch': 'none'})
         # every letter of every name escaped / hex-escaped / in the other case (function names, at-keywords,
         # property names, units, keywords, pseudo names)
         ftpls = G.FUNCTION_TEMPLATES if ctx.tier_counts == 'thorough' else G.FUNCTION_TEMPLATES[:2] + [G.FUNCTION_TEMPLATES[2 + ctx.seed % 4]]
